@@ -46,9 +46,16 @@ PROPS["C04"] = dict(
     claim="fault enumeration: for every rapid-generated operation the check first runs fault-free to learn the invocation keys, then "
           "injects every single fault (each resolver and directive invocation x {error, panic}, foreign Go values at abstract "
           "positions incl. list elements) and compares data, errors, recover-hook count and a follow-up probe request with the "
-          "reference executor; plus random multi-fault sets; for worker_limit 0/1/2; a process crash is a violation (journalled case)",
+          "reference executor; plus random multi-fault sets; the same enumeration inside deferred groups (shared @defer oracle); a field "
+          "interceptor (AroundFields) failing or panicking at every resolver position (same reference); and user code at scalar positions: "
+          "a custom scalar whose UnmarshalGQL returns an error / panics while arguments, list elements, input-object fields (nested, in "
+          "lists, via variables) are coerced, and whose MarshalGQL panics while the response is serialised, over POST, GET and a "
+          "websocket session - oracle: the same request with the hostile value replaced by a benign one (failing fields null with one "
+          "error each at their path, their resolvers not called, all other values equal, recover hook once per panic; a serialisation "
+          "panic fails the response as a whole with a well-formed error body), followed by the benign request again (the process keeps "
+          "serving); for worker_limit 0/1/2; a process crash is a violation (journalled case)",
     note="single faults are exhaustive per generated operation, operations are sampled; reference executor and gqlparser trusted; "
-         "panics while serialising custom scalars over real transports are covered by the transport checks",
+         "subscription events are covered as far as C11 goes (resolver error/panic per operation)",
     technique="fault injection enumerated over generated operations (rapid) with a reference-executor oracle",
     rule="evaluation = one execution with one injected fault set; non-trivial = fault below the root (nested field, concurrent sibling "
          "or list-element goroutine) or a multi-fault set containing a panic; distinct by (query, plan seed, fault key, kind)",
